@@ -15,6 +15,14 @@
 //!  * the re-displayed value is again a spelling of the same value and parses back to it.
 //! Value case: `Display` is diffed against the model's `show` (`s <kind> …`), `parse(display v) == v`, the
 //! per-variant types agree, and the serde string form is the displayed form and deserialises to the value.
+//! Record case (`txtrec`): a list of DNS TXT resource records, each a list of character-strings (bytes).  The
+//! production record level of `ScionTxtDnsResolver::resolve` (`txt_record_to_string` on every record, then
+//! `resolve_txt_records_with_invalid`) runs through the hook `verif_resolve_txt_rrs` and is diffed against the
+//! model (`r <rr> …`), including the raw texts of the invalid entries of `NoValidEntries`.  Spec oracle
+//! (`C15:txtrec:*`), independent of the model: no panic; the returned addresses are exactly, in order, the
+//! addresses of the records whose concatenated character-strings are valid UTF-8 and read `scion=` `v1` `;`
+//! followed by a spelling of a TXT payload (reference recogniser) – nothing else contributes an address, no
+//! such record is lost, and `NoValidEntries` is returned iff there is no such record.
 //! The ip4/ip6 kinds validate the executable `HostCodec` instance of the driver against std and check the
 //! hypotheses the theorems put on the codec (round trip, alphabet, `:` in every IPv6 text) on std itself.
 use std::{
@@ -32,7 +40,10 @@ use sciparse::{
     },
     identifier::{asn::Asn, isd::Isd, isd_asn::IsdAsn},
 };
-use scion_stack::resolver::txt::verif_parse_txt_payload;
+use scion_stack::resolver::{
+    ResolveError,
+    txt::{verif_parse_txt_payload, verif_resolve_txt_rrs},
+};
 use serde_json::json;
 use verif_harness::*;
 
@@ -771,13 +782,13 @@ fn check_string(cx: &mut Ctx, stream: &str, kind: &str, s: &str, near_valid: boo
         let lean = &mut cx.lean;
         let small = shrink(s, &mut |t| { let a = impl_parse(kind, t); let b = lean.ask(&format!("p {kind} {}", hex(t.as_bytes()))); a != b });
         let (a, b) = (impl_parse(kind, &small), cx.lean.ask(&format!("p {kind} {}", hex(small.as_bytes()))));
-        cx.rep.disagree(&format!("parse-{kind}"), json!({"kind": kind, "string": small, "hex": hex(small.as_bytes()), "found_as": s}), &a, &b);
+        cx.rep.disagree(&format!("parse-{kind}"), json!({"kind": kind, "string": small, "hex": hex(small.as_bytes()), "found_as": s, "line": format!("{kind} {}", hex(small.as_bytes()))}), &a, &b);
     }
     for (key, what) in spec_of_string(kind, s, &io) {
         let k2 = key.clone();
         let small = shrink(s, &mut |t| spec_of_string(kind, t, &impl_parse(kind, t)).iter().any(|(k, _)| *k == k2));
         let what2 = spec_of_string(kind, &small, &impl_parse(kind, &small)).into_iter().find(|(k, _)| *k == key).map(|x| x.1).unwrap_or(what);
-        cx.rep.spec_fail(&key, &what2, json!({"kind": kind, "string": small, "hex": hex(small.as_bytes()), "found_as": s}));
+        cx.rep.spec_fail(&key, &what2, json!({"kind": kind, "string": small, "hex": hex(small.as_bytes()), "found_as": s, "line": format!("{kind} {}", hex(small.as_bytes()))}));
     }
     if accepted {
         // serde string form = FromStr
@@ -887,6 +898,392 @@ fn check_value(cx: &mut Ctx, v: &Val) {
     }
 }
 
+// ------------------------------------------------------------------------------------------------
+// multi-edit mutants: 2-3 edits, structure-aware (doubled separators / brackets, nesting, swaps)
+// ------------------------------------------------------------------------------------------------
+fn multi_edit(r: &mut Rng, s: &str) -> String {
+    let mut cur = s.to_string();
+    for _ in 0..r.range(2, 3) {
+        let cs: Vec<char> = cur.chars().collect();
+        let structural: Vec<usize> = cs.iter().enumerate().filter(|(_, c)| "[]:,-_<>.;=".contains(**c)).map(|(i, _)| i).collect();
+        cur = match r.below(7) {
+            0 if !structural.is_empty() => {
+                // double a structural character: `]]`, `,,`, `::`, `--`
+                let i = *r.pick(&structural);
+                let mut t = cs.clone();
+                t.insert(i, cs[i]);
+                t.iter().collect()
+            }
+            1 if !structural.is_empty() => {
+                // put a bracket next to a structural character
+                let i = *r.pick(&structural) + r.below(2) as usize;
+                let mut t = cs.clone();
+                t.insert(i.min(t.len()), *r.pick(&['[', ']']));
+                t.iter().collect()
+            }
+            2 if cs.len() >= 2 => {
+                // nest: wrap a random infix in brackets
+                let a = r.below(cs.len() as u64) as usize;
+                let b = r.range(a as u64, cs.len() as u64) as usize;
+                let mut t = cs.clone();
+                t.insert(b, ']');
+                t.insert(a, '[');
+                t.iter().collect()
+            }
+            3 if cs.len() >= 2 => {
+                let i = r.below(cs.len() as u64 - 1) as usize;
+                let mut t = cs.clone();
+                t.swap(i, i + 1);
+                t.iter().collect()
+            }
+            4 if !structural.is_empty() => {
+                // drop a structural character
+                let i = *r.pick(&structural);
+                let mut t = cs.clone();
+                t.remove(i);
+                t.iter().collect()
+            }
+            _ => random_edit(r, &cur),
+        };
+    }
+    cur
+}
+
+// ------------------------------------------------------------------------------------------------
+// DNS TXT record level
+// ------------------------------------------------------------------------------------------------
+type RR = Vec<Vec<u8>>;
+const DOMAIN: &str = "example.com";
+
+fn rr_token(rr: &RR) -> String {
+    if rr.is_empty() { "0".into() } else { rr.iter().map(|c| hex(c)).collect::<Vec<_>>().join(",") }
+}
+fn rr_from_token(t: &str) -> Option<RR> {
+    if t == "0" { Some(vec![]) } else { t.split(',').map(unhex).collect() }
+}
+fn rrs_line(rrs: &[RR]) -> String {
+    std::iter::once("txtrec".to_string()).chain(rrs.iter().map(rr_token)).collect::<Vec<_>>().join(" ")
+}
+fn rrs_lossy(rrs: &[RR]) -> Vec<String> {
+    rrs.iter().map(|rr| String::from_utf8_lossy(&rr.concat()).into_owned()).collect()
+}
+
+/// the production record level, canonicalised: `ok a;b` | `novalid <hex raw> …` | `panic`
+fn impl_resolve(rrs: &[RR]) -> String {
+    match catch(|| verif_resolve_txt_rrs(DOMAIN, rrs)) {
+        Err(_) => "panic".into(),
+        Ok(Ok(l)) => format!("ok {}", l.iter().map(|a| addr_canon(&(*a).into())).collect::<Vec<_>>().join(";")),
+        Ok(Err(ResolveError::NoValidEntries { domain, invalid_entries })) if domain == DOMAIN => {
+            std::iter::once("novalid".to_string()).chain(invalid_entries.iter().map(|e| hex(e.raw().as_bytes()))).collect::<Vec<_>>().join(" ")
+        }
+        Ok(Err(e)) => format!("other-error {e:?}"),
+    }
+}
+fn model_resolve(lean: &mut Lean, rrs: &[RR]) -> String {
+    lean.ask(&std::iter::once("r".to_string()).chain(rrs.iter().map(rr_token)).collect::<Vec<_>>().join(" "))
+}
+
+/// what the property demands: the addresses of the records that are, after concatenating their
+/// character-strings, valid UTF-8 and exactly `"scion=" version separator address-list` of the module
+/// documentation (address-list up to the documented white space), in record order
+fn spec_records(rrs: &[RR]) -> Vec<String> {
+    let mut out = vec![];
+    for rr in rrs {
+        let bytes = rr.concat();
+        let Ok(s) = std::str::from_utf8(&bytes) else { continue };
+        let Some(payload) = s.strip_prefix("scion=").and_then(|x| x.strip_prefix("v1")).and_then(|x| x.strip_prefix(';')) else { continue };
+        if let Some(l) = spell_txt(payload) {
+            out.extend(l.iter().map(|(ia, h)| format!("{ia} {}", h.canon())));
+        }
+    }
+    out
+}
+fn is_subsequence(xs: &[&str], of: &[String]) -> bool {
+    let mut it = of.iter();
+    xs.iter().all(|x| it.any(|y| y == x))
+}
+fn spec_of_records(rrs: &[RR], io: &str) -> Vec<(String, String)> {
+    let want = spec_records(rrs);
+    let shown = rrs_lossy(rrs);
+    let mut out = vec![];
+    if io == "panic" {
+        out.push(("C15:txtrec:panic".to_string(), format!("the TXT record level panicked on {shown:?}")));
+    } else if let Some(v) = io.strip_prefix("ok ") {
+        let got: Vec<&str> = v.split(';').collect();
+        if got.iter().map(|x| x.to_string()).collect::<Vec<_>>() != want {
+            if is_subsequence(&got, &want) {
+                out.push(("C15:txtrec:drops-valid-record".to_string(), format!("records {shown:?} resolve to `{v}` but spell `{}`", want.join(";"))));
+            } else {
+                out.push(("C15:txtrec:accepts-non-spelling".to_string(), format!("records {shown:?} resolve to `{v}`; the records that are prefix + payload spelling give `{}`", want.join(";"))));
+            }
+        }
+    } else if io.starts_with("novalid") {
+        if !want.is_empty() {
+            out.push(("C15:txtrec:rejects-valid-record".to_string(), format!("records {shown:?} give NoValidEntries but spell `{}`", want.join(";"))));
+        }
+    } else {
+        out.push(("C15:txtrec:unexpected-error".to_string(), format!("records {shown:?} give `{io}`")));
+    }
+    out
+}
+
+/// greedy shrinking of a record set: drop records, merge character-strings, drop bytes
+fn shrink_rrs(rrs: &[RR], fails: &mut dyn FnMut(&[RR]) -> bool) -> Vec<RR> {
+    let mut cur: Vec<RR> = rrs.to_vec();
+    let mut budget = 600;
+    loop {
+        let mut progressed = false;
+        let mut i = 0;
+        while i < cur.len() && budget > 0 {
+            let mut cand = cur.clone();
+            cand.remove(i);
+            budget -= 1;
+            if fails(&cand) { cur = cand; progressed = true; } else { i += 1; }
+        }
+        for i in 0..cur.len() {
+            if cur[i].len() > 1 && budget > 0 {
+                let mut cand = cur.clone();
+                cand[i] = vec![cur[i].concat()];
+                budget -= 1;
+                if fails(&cand) { cur = cand; progressed = true; }
+            }
+        }
+        for i in 0..cur.len() {
+            for j in 0..cur[i].len() {
+                let mut k = 0;
+                while k < cur[i][j].len() && budget > 0 {
+                    let mut cand = cur.clone();
+                    cand[i][j].remove(k);
+                    budget -= 1;
+                    if fails(&cand) { cur = cand; progressed = true; } else { k += 1; }
+                }
+            }
+        }
+        if !progressed || budget == 0 { break; }
+    }
+    cur
+}
+
+/// class of one record for the distribution: valid / invalid / foreign / nonutf8
+fn record_class(rr: &RR) -> &'static str {
+    let bytes = rr.concat();
+    match std::str::from_utf8(&bytes) {
+        Err(_) => "nonutf8",
+        Ok(s) => match s.strip_prefix("scion=v1;") {
+            None => "foreign",
+            Some(p) => if spell_txt(p).is_some() { "valid" } else { "invalid" },
+        },
+    }
+}
+
+fn check_records(cx: &mut Ctx, stream: &str, rrs: &[RR]) {
+    let io = impl_resolve(rrs);
+    let mo = model_resolve(&mut cx.lean, rrs);
+    let classes: Vec<&str> = rrs.iter().map(record_class).collect();
+    let prefixed = classes.iter().any(|c| *c == "valid" || *c == "invalid");
+    cx.rep.case(&rrs_line(rrs), prefixed);
+    cx.rep.hit(&format!("txtrec {}", io.split(' ').next().unwrap_or("")));
+    cx.rep.hit(&format!("stream txtrec-{stream}"));
+    for c in &classes { cx.rep.hit(&format!("txtrec record {c}")); }
+    let has = |c: &str| classes.iter().any(|x| *x == c);
+    if has("valid") && (has("invalid") || has("nonutf8")) { cx.rep.hit("txtrec set valid+invalid"); }
+    if has("valid") && has("foreign") { cx.rep.hit("txtrec set valid+foreign"); }
+    if classes.iter().filter(|c| **c == "valid").count() > 1 { cx.rep.hit("txtrec set several valid"); }
+    if rrs.iter().any(|rr| rr.len() > 1) { cx.rep.hit("txtrec set with split record"); }
+    if rrs.iter().any(|rr| rr.iter().any(|c| c.len() == 255)) { cx.rep.hit("txtrec set with 255-byte character-string"); }
+    if stream == "random" && has("valid") && has("invalid") && rrs.iter().any(|rr| rr.len() > 1) {
+        let tag = "sampled txtrec";
+        if !cx.rep.distribution.contains_key(tag) {
+            cx.rep.hit(tag);
+            cx.rep.sample(json!({"stream": stream, "kind": "txtrec", "records": rrs_lossy(rrs), "line": rrs_line(rrs), "impl": io, "model": mo, "spec_addresses": spec_records(rrs)}));
+        }
+    }
+    // the model's UTF-8 decoder against std's, on every record
+    for rr in rrs {
+        let bytes = rr.concat();
+        let want = match std::str::from_utf8(&bytes) {
+            Ok(s) => std::iter::once("ok".to_string()).chain(s.chars().map(|c| (c as u32).to_string())).collect::<Vec<_>>().join(" "),
+            Err(_) => "err".into(),
+        };
+        let m = cx.lean.ask(&format!("u {}", hex(&bytes)));
+        if cx.lean.differs(&m, &want) {
+            cx.rep.disagree("prim-utf8", json!({"bytes": hex(&bytes)}), &want, &m);
+        }
+    }
+    if cx.lean.differs(&mo, &io) {
+        let lean = &mut cx.lean;
+        let small = shrink_rrs(rrs, &mut |t| impl_resolve(t) != model_resolve(lean, t));
+        let (a, b) = (impl_resolve(&small), model_resolve(&mut cx.lean, &small));
+        cx.rep.disagree("resolve-txt-records", json!({"kind": "txtrec", "records": rrs_lossy(&small), "line": rrs_line(&small), "found_as": rrs_line(rrs)}), &a, &b);
+    }
+    for (key, what) in spec_of_records(rrs, &io) {
+        let k2 = key.clone();
+        let small = shrink_rrs(rrs, &mut |t| spec_of_records(t, &impl_resolve(t)).iter().any(|(k, _)| *k == k2));
+        let what2 = spec_of_records(&small, &impl_resolve(&small)).into_iter().find(|(k, _)| *k == key).map(|x| x.1).unwrap_or(what);
+        cx.rep.spec_fail(&key, &what2, json!({"kind": "txtrec", "records": rrs_lossy(&small), "line": rrs_line(&small), "found_as": rrs_line(rrs)}));
+    }
+}
+
+const PREFIX_VARIANTS: [&str; 27] = [
+    "scion=v2;", "scion=v0;", "scion=v10;", "scion=v1.0;", "scion=v01;", "SCION=v1;", "Scion=v1;", "scion=V1;", " scion=v1;", "\tscion=v1;",
+    "scion =v1;", "scion= v1;", "scion=v1 ;", "scion=v1", "scion=v1:", "scion=v1,", "scion=v1;;", "scion=v1;scion=v1;", "scion=v1; ", "scion=v1;\t",
+    "scion=v1;\u{2003}", "\u{feff}scion=v1;", "xscion=v1;", "scion=v1;x", "\"scion=v1;", "scion-v1;", "",
+];
+const FOREIGN: [&str; 8] = [
+    "v=spf1 include:_spf.example.com ~all", "", " ", "google-site-verification=abc123", "scion", "scion=", "scion=v1", "[19-ff00:0:110,192.0.2.1]",
+];
+
+/// one record text (bytes) and what it was meant to be
+fn gen_record(r: &mut Rng, b6: &[u128]) -> Vec<u8> {
+    let payload = gen_valid(r, "txt", b6);
+    match r.below(12) {
+        0..=4 => format!("scion=v1;{payload}").into_bytes(),
+        5 => format!("scion=v1;{}", multi_edit(r, &payload)).into_bytes(),
+        6 => format!("scion=v1;{}", random_edit(r, &payload)).into_bytes(),
+        7 => format!("{}{payload}", r.pick(&PREFIX_VARIANTS)).into_bytes(),
+        8 => r.pick(&FOREIGN).as_bytes().to_vec(),
+        9 => {
+            // not UTF-8: a stray byte, or a truncated multi-byte sequence
+            let mut b = format!("scion=v1;{payload}").into_bytes();
+            let i = r.below(b.len() as u64 + 1) as usize;
+            match r.below(3) {
+                0 => b.insert(i, *r.pick(&[0xffu8, 0xc0, 0x80, 0xfe, 0xed])),
+                1 => { let t = "\u{2003}".as_bytes(); b.splice(i..i, t[..r.range(1, 2) as usize].iter().copied()); }
+                _ => { if i < b.len() { b[i] |= 0x80; } else { b.push(0xe2); } }
+            }
+            b
+        }
+        10 => random_edit(r, &format!("scion=v1;{payload}")).into_bytes(),
+        _ => multi_edit(r, &format!("scion=v1;{payload}")).into_bytes(),
+    }
+}
+/// split a record text into character-strings
+fn chunk(r: &mut Rng, b: &[u8]) -> RR {
+    match r.below(7) {
+        0 | 1 => vec![b.to_vec()],
+        2 => { let i = r.below(b.len() as u64 + 1) as usize; vec![b[..i].to_vec(), b[i..].to_vec()] }
+        3 => {
+            // several pieces, some of them empty
+            let mut cuts: Vec<usize> = (0..r.range(2, 5)).map(|_| r.below(b.len() as u64 + 1) as usize).collect();
+            cuts.sort();
+            let mut out = vec![];
+            let mut last = 0;
+            for c in cuts { out.push(b[last..c].to_vec()); last = c; }
+            out.push(b[last..].to_vec());
+            out
+        }
+        4 => b.chunks(255).map(|c| c.to_vec()).collect(), // as a DNS server splits a long text (empty text: no string)
+        5 if b.len() <= 64 => b.iter().map(|x| vec![*x]).collect(),
+        5 => b.chunks(r.range(1, 40) as usize).map(|c| c.to_vec()).collect(),
+        _ => { let mut v = vec![vec![], b.to_vec(), vec![]]; if r.chance(1, 2) { v.remove(0); } v }
+    }
+}
+fn rr1(s: &str) -> RR { vec![s.as_bytes().to_vec()] }
+
+fn record_stream(cx: &mut Ctx, rng: &mut Rng, b6: &[u128], args: &Args) {
+    let good = "scion=v1;[19-ff00:0:110,192.0.2.1]";
+    let good2 = "scion=v1;[19-ff00:0:111,2001:db8::1] , [1-64512,10.0.0.1]";
+    let bad = "scion=v1;[bad,192.0.2.2]";
+    // ---- hand-written sets: every record class alone, before and after a valid record -------------------
+    let mut singles: Vec<String> = vec![good.into(), good2.into(), bad.into(), "scion=v1;".into(), "scion=v1; ".into(), "scion=v1;[19-ff00:0:110,192.0.2.1],".into(),
+        "scion=v1;[19-ff00:0:110,192.0.2.1]]".into(), "scion=v1;[[19-ff00:0:110,192.0.2.1]]".into(), "scion=v1;[19-ff00:0:110,192.0.2.1]x".into(),
+        "scion=v1;x[19-ff00:0:110,192.0.2.1]".into(), "scion=v1;[19-ff00:0:110,CS]".into(), "scion=v1; [ 19-ff00:0:110 , 192.0.2.1 ] ".into(),
+        "scion=v1;\u{2003}[19-ff00:0:110,192.0.2.1]\u{a0}".into(), "scion=v1;[19-ff00:0:110,192.0.2.1];[19-ff00:0:111,::1]".into(),
+        "scion=v1;[19-ff00:0:110,192.0.2.1]scion=v1;[19-ff00:0:111,::1]".into(), "scion=v1;[19-ff00:0:110,192.0.2.1]\nscion=v1;[19-ff00:0:111,::1]".into()];
+    for p in PREFIX_VARIANTS { singles.push(format!("{p}[19-ff00:0:110,192.0.2.1]")); }
+    for f in FOREIGN { singles.push(f.to_string()); }
+    check_records(cx, "boundary", &[]);
+    check_records(cx, "boundary", &[vec![]]);
+    check_records(cx, "boundary", &[vec![], rr1(good), vec![vec![]]]);
+    for s in &singles {
+        check_records(cx, "boundary", &[rr1(s)]);
+        check_records(cx, "boundary", &[rr1(s), rr1(good2)]);
+        check_records(cx, "boundary", &[rr1(good2), rr1(s)]);
+        check_records(cx, "boundary", &[rr1(s), rr1(s)]);
+        check_records(cx, "boundary", &[rr1(bad), rr1(s), rr1(good), rr1(s)]);
+    }
+    for nonutf8 in [vec![0xffu8], b"scion=v1;[19-ff00:0:110,192.0.2.1]\xff".to_vec(), b"\xffscion=v1;[19-ff00:0:110,192.0.2.1]".to_vec(), b"scion=v1;\xe2\x80".to_vec(), b"scion=v1;[19-ff00:0:110,192.0.2.1\xc0\xaf]".to_vec(),
+        b"scion=v1;\xed\xa0\x80[19-ff00:0:110,192.0.2.1]".to_vec(), b"scion=v1;\xf4\x90\x80\x80".to_vec(), b"scion=v1;\xc2".to_vec()] {
+        check_records(cx, "boundary", &[vec![nonutf8.clone()]]);
+        check_records(cx, "boundary", &[vec![nonutf8.clone()], rr1(good)]);
+        check_records(cx, "boundary", &[rr1(good), vec![nonutf8.clone()], rr1(bad)]);
+        check_records(cx, "boundary", &[rr1(bad), vec![nonutf8.clone()]]);
+    }
+    // a multi-byte character split over two character-strings is one character of the record
+    check_records(cx, "boundary", &[vec![b"scion=v1;\xe2\x80".to_vec(), b"\x83[19-ff00:0:110,192.0.2.1]".to_vec()]]);
+    check_records(cx, "boundary", &[vec![b"scion=v1;\xe2\x80".to_vec()], vec![b"\x83[19-ff00:0:110,192.0.2.1]".to_vec()]]);
+    // ---- long records: more than 255 bytes, split as a DNS server does, and at 255 exactly ----------------
+    for n in [8usize, 9, 10, 11, 12, 30] {
+        let payload = (0..n).map(|i| format!("[{}-ff00:0:{:x},2001:db8::{:x}]", i + 1, 0x110 + i, i + 1)).collect::<Vec<_>>().join(",");
+        let rec = format!("scion=v1;{payload}").into_bytes();
+        check_records(cx, "long", &[rec.chunks(255).map(|c| c.to_vec()).collect()]);
+        check_records(cx, "long", &[vec![rec.clone()]]);
+        let mut broken = rec.clone();
+        broken.truncate(255);
+        check_records(cx, "long", &[vec![broken.clone()], rr1(good)]);
+        check_records(cx, "long", &[vec![broken], vec![rec[255.min(rec.len())..].to_vec()]]);
+    }
+    for pad in 0..3usize {
+        // a record whose text is exactly 255 / 510 bytes (white space padding is part of the grammar)
+        for total in [255usize, 510] {
+            let base = format!("scion=v1;{}", "[19-ff00:0:110,192.0.2.1],".repeat(30));
+            let mut t: String = base.chars().take(total - 26 - pad).collect();
+            t = t.trim_end_matches(|c| c != ',').to_string();
+            let mut rec = format!("{t}[19-ff00:0:110,192.0.2.1]");
+            while rec.len() < total { rec.push(' '); }
+            check_records(cx, "long", &[rec.as_bytes().chunks(255).map(|c| c.to_vec()).collect()]);
+        }
+    }
+    // ---- every split position of a few records, alone and next to another record ---------------------------
+    let n_split = args.scale(6, 60);
+    for i in 0..n_split {
+        let rec = match i { 0 => good.as_bytes().to_vec(), 1 => "scion=v1;\u{2003}[19-ff00:0:110 ,\u{a0}2001:db8::1]\u{85}".as_bytes().to_vec(), 2 => bad.as_bytes().to_vec(), _ => gen_record(rng, b6) };
+        for cut in 0..=rec.len() {
+            let rr = vec![rec[..cut].to_vec(), rec[cut..].to_vec()];
+            check_records(cx, "split", &[rr.clone()]);
+            if cut % 3 == 0 {
+                // the same two character-strings as two separate records are two different texts
+                check_records(cx, "split", &[vec![rec[..cut].to_vec()], vec![rec[cut..].to_vec()]]);
+                check_records(cx, "split", &[rr1(bad), rr, rr1(good2)]);
+            }
+        }
+    }
+    // ---- random record sets -----------------------------------------------------------------------------------
+    for _ in 0..args.scale(2500, 120000) {
+        let n = match rng.below(10) { 0 => 0, 1..=3 => 1, 4..=6 => 2, 7 | 8 => 3, _ => rng.range(4, 6) } as usize;
+        let mut rrs: Vec<RR> = vec![];
+        for _ in 0..n {
+            if !rrs.is_empty() && rng.chance(1, 6) {
+                // duplicate of an earlier record (possibly split differently)
+                let b = rng.pick(&rrs).concat();
+                rrs.push(chunk(rng, &b));
+            } else {
+                let b = gen_record(rng, b6);
+                rrs.push(chunk(rng, &b));
+            }
+        }
+        check_records(cx, "random", &rrs);
+    }
+    // ---- values: every list of address lists, written as records, resolves to exactly those addresses ------
+    for _ in 0..args.scale(400, 20000) {
+        let n = rng.range(1, 4);
+        let lists: Vec<Vec<(u64, H)>> = (0..n).map(|_| (0..rng.range(1, 3)).map(|_| (rnd_ia(rng), rnd_host(rng, b6, true))).collect()).collect();
+        let mut rrs: Vec<RR> = vec![];
+        for l in &lists {
+            let d = l.iter().map(|(ia, h)| format!("[{}]", ScionAddr::new(IsdAsn(*ia), h.real()))).collect::<Vec<_>>().join(",");
+            rrs.push(chunk(rng, format!("scion=v1;{d}").as_bytes()));
+            if rng.chance(1, 4) { let f = *rng.pick(&FOREIGN); rrs.push(chunk(rng, f.as_bytes())); }
+        }
+        let want = format!("ok {}", lists.iter().flatten().map(|(ia, h)| format!("{ia} {}", h.canon())).collect::<Vec<_>>().join(";"));
+        let io = impl_resolve(&rrs);
+        if io != want {
+            cx.rep.spec_fail(if io == "panic" { "C15:txtrec:panic" } else { "C15:txtrec:roundtrip" }, &format!("the records {:?} written for `{want}` resolve to `{io}`", rrs_lossy(&rrs)),
+                json!({"kind": "txtrec", "records": rrs_lossy(&rrs), "line": rrs_line(&rrs)}));
+        }
+        check_records(cx, "value", &rrs);
+    }
+}
+
 fn main() {
     let args = Args::parse();
     quiet_panics();
@@ -895,11 +1292,16 @@ fn main() {
     let rep = Report::new(
         "C15",
         "case = (kind, string) parsed by the real FromStr / TXT parser and by the Lean model, or (kind, value) displayed \
-         by both and parsed back. Streams: corpus; boundary (hand-written bracket/port/overflow/service/IP cases); \
+         by both and parsed back, or (txtrec, list of TXT resource records as lists of character-strings) resolved by the production \
+         record level (hook verif_resolve_txt_rrs) and by the model. Streams: corpus; boundary (hand-written bracket/port/overflow/service/IP cases); \
          grammar (valid spellings with the documented alternatives); mutation (single insert/delete/replace edits of valid \
          forms over `[]:,-+_ 0-9a-fA-FxX<>.` and non-ASCII); short (all strings of length 0..3 over 12 characters, length 0..4 over the \
-         service alphabet). Non-trivial = a value case, or a string that is accepted, or a non-empty string from the \
-         grammar/mutation/boundary streams (at most one edit away from a valid form); distinct by hash of (kind, string)",
+         service alphabet); multiedit (2-3 structure-aware edits of a valid form: doubled separators/brackets, nesting, swaps, drops); \
+         txtrec-boundary/long/split/random/value (record sets: valid/invalid/foreign/wrong-version/non-UTF-8 records in every order, \
+         duplicates, records split into character-strings at every position, 255-byte strings). Non-trivial = a value case, or a \
+         string that is accepted, or a non-empty string from the grammar/mutation/multiedit/boundary streams (at most three edits away \
+         from a valid form), or a record set with at least one record that carries the scion=v1; prefix; distinct by hash of \
+         (kind, string) / of the record-set line",
     );
     let mut cx = Ctx { lean, rep };
     let b6 = v6_boundaries();
@@ -912,7 +1314,15 @@ fn main() {
     };
     for l in &lines {
         let mut it = l.split_whitespace();
-        let (Some(k), Some(hx)) = (it.next(), it.next()) else { cx.rep.notes.push(format!("unparseable corpus line: {l}")); continue };
+        let Some(k) = it.next() else { continue };
+        if k == "txtrec" {
+            match it.map(rr_from_token).collect::<Option<Vec<RR>>>() {
+                Some(rrs) => check_records(&mut cx, "corpus", &rrs),
+                None => cx.rep.notes.push(format!("bad record token in corpus line: {l}")),
+            }
+            continue;
+        }
+        let Some(hx) = it.next() else { cx.rep.notes.push(format!("unparseable corpus line: {l}")); continue };
         let Some(kind) = KINDS.iter().find(|x| **x == k) else { cx.rep.notes.push(format!("unknown kind in corpus: {k}")); continue };
         match unhex(hx).and_then(|b| String::from_utf8(b).ok()) {
             Some(s) => check_string(&mut cx, "corpus", kind, &s, true),
@@ -950,8 +1360,10 @@ fn main() {
             }
         }
         let rust_consts = format!(
-            "ISD_BITS={} ASN_BITS={} ASN_MAX={} ASN_DISPLAY_DECIMAL_MAX={} ASN_PARSE_DECIMAL_MAX={} IA_BITS={} SVC_BITS={} SVC_MULTICAST_FLAG={} PORT_BITS={} SHOW={} PARSE={} TXT_PREFIX={}",
-            Isd::BITS, Asn::BITS, Asn::MAX.0, u32::MAX, u32::MAX, IsdAsn::BITS, u16::BITS, ServiceAddr(0).to_multicast().0, u16::BITS, tab(&show), tab(&parse), "scion=v1;"
+            "ISD_BITS={} ASN_BITS={} ASN_MAX={} ASN_DISPLAY_DECIMAL_MAX={} ASN_PARSE_DECIMAL_MAX={} IA_BITS={} SVC_BITS={} SVC_MULTICAST_FLAG={} PORT_BITS={} SHOW={} PARSE={} TXT_PREFIX={} TXT_INVALID_UTF8_RAW={} TXT_UTF8_STRICT=1",
+            Isd::BITS, Asn::BITS, Asn::MAX.0, u32::MAX, u32::MAX, IsdAsn::BITS, u16::BITS, ServiceAddr(0).to_multicast().0, u16::BITS, tab(&show), tab(&parse), "scion=v1;",
+            // the raw text of a record that is not UTF-8, as the production code reports it
+            match verif_resolve_txt_rrs(DOMAIN, &[vec![vec![0xff]]]) { Err(ResolveError::NoValidEntries { invalid_entries, .. }) if invalid_entries.len() == 1 => invalid_entries[0].raw().to_string(), o => format!("{o:?}") }
         );
         let m = cx.lean.ask("consts");
         cx.rep.case("prim consts", true);
@@ -961,7 +1373,7 @@ fn main() {
         if Ipv4Addr::from_str("").is_ok() || Ipv6Addr::from_str("").is_ok() {
             cx.rep.spec_fail("C15:codec-hypothesis", "std reads the empty text as an IP address", json!({"string": ""}));
         }
-        // the TXT prefix is only visible through behaviour: records without it are skipped (not modelled further)
+        // the TXT prefix is only visible through behaviour: the record stream below runs the production record level
         cx.rep.hit("prim checks");
     }
 
@@ -1007,6 +1419,9 @@ fn main() {
     for (k, s) in boundary_strings() {
         check_string(&mut cx, "boundary", k, &s, true);
     }
+
+    // ---- DNS TXT record level --------------------------------------------------------------------------------
+    record_stream(&mut cx, &mut rng, &b6, &args);
 
     // ---- all short strings --------------------------------------------------------------------------
     let alpha: Vec<char> = "01a:,-+[]._é".chars().collect();
@@ -1059,6 +1474,15 @@ fn main() {
             }
         }
     }
+    // ---- mutants two or three edits away from a valid form (doubled separators / brackets, nesting, swaps) -----
+    for k in KINDS {
+        for _ in 0..args.scale(400, 20000) {
+            let base = gen_valid(&mut rng, k, &b6);
+            let e = multi_edit(&mut rng, &base);
+            check_string(&mut cx, "multiedit", k, &e, true);
+        }
+    }
+
     cx.rep.traces = cx.rep.evaluations;
     cx.rep.notes.push(format!("driver requests: {}", cx.lean.requests));
     cx.rep.write(&args.out);
